@@ -102,7 +102,7 @@ def expected_merge(rec_new, rec_old, rec_committed):
             return None
         if not all(re.fullmatch(r'a\d+\.', x) for x in (old, com, new)):
             return None
-        return '%s/%s/a%d.' % (cid, args, b + c - a)
+        return '%s/%s/a%d.' % (cid, args, max(b + c - a, 0))
     if beh.startswith('v'):
         return '%s/%s/pa%s.p%sp%s%s' % (cid, args, beh[1:], norm_wire(old), norm_wire(com), norm_wire(new))
     return None
